@@ -11,7 +11,13 @@ import (
 	"time"
 )
 
-const Root = "/verif"
+// Root is /verif for the registered commands; VERIF_EVIDENCE_ROOT redirects experiments.
+var Root = func() string {
+	if d := os.Getenv("VERIF_EVIDENCE_ROOT"); d != "" {
+		return d
+	}
+	return "/verif"
+}()
 
 type File struct {
 	PropertyID    string                 `json:"property_id"`
